@@ -307,6 +307,32 @@ fn cmd_random(out: &str, n_lop: usize, n_long: usize) {
         tr.emit(&split_record(&x, t));
         n += 1;
     }
+    // Theil-Sen and the median beyond the exhaustive bound: 8..13 noisy points (28..78 pairwise slopes, even and odd counts,
+    // longer than any small-slice special case of a sort or selection routine), judged exactly
+    for k in 0..n_lop * 2 {
+        let len = 8 + (k % 6);
+        let drift = rng.below(5) as i64 - 2;
+        let noise = 2 + rng.below(28);
+        let x: Vec<i64> = (0..len).map(|j| 30 + drift * (j as i64) / 2 + rng.below(noise) as i64 - (noise as i64) / 2).collect();
+        let mut frac = 0u32;
+        let l = lcm_up_to(len as u64 - 1) as f64;
+        let mut rows = vec![];
+        for (a, b) in AFF {
+            let v: Vec<f64> = x.iter().map(|t| (a * t + b) as f64).collect();
+            let (ts, sl, ic) = match theil_sen_line(&v) {
+                Some((s, i)) => (1, nr(s, 2.0 * l), nr(i, 4.0 * l)),
+                None => (0, (0, 0), (0, 0)),
+            };
+            let (ms, md) = match median(&v) {
+                Some(m) => (1, nr(m, 2.0)),
+                None => (0, (0, 0)),
+            };
+            let mk = mann_kendall(&v);
+            rows.push(json!([a, b, ts, sl.0, sl.1, ic.0, ic.1, ms, md.0, md.1, as_int(mk.s, &mut frac)]));
+        }
+        tr.emit(&json!({"op":"ts","x":x,"aff":rows,"frac":frac}));
+        n += 1;
+    }
     for i in 0..n_long {
         let len = *rng.pick(&[40usize, 60, 61, 120, 500, 1000]);
         let style = rng.below(5);
